@@ -12,7 +12,7 @@ list=/verif/.build/par_list.txt
 for d in seeded/_incoming/C??; do id=$(basename $d); for n in 1 2; do [ -f $d/change_$n.diff ] && echo "1 /verif/$d/change_$n.diff $id" >> $list; done; done
 echo "1 /verif/seeded/_own/C05a/change_1.diff C05" >> $list
 echo "1 /verif/seeded/_own/R952/change_1.diff C01" >> $list
-for w in 2 3 4 5; do for d in seeded/_incoming$w/C??; do id=$(basename $d); for n in 1 2; do [ -f $d/change_$n.diff ] && echo "$w /verif/$d/change_$n.diff $id" >> $list; done; done; done
+for w in 2 3 4 5 6; do for d in seeded/_incoming$w/C??; do id=$(basename $d); for n in 1 2; do [ -f $d/change_$n.diff ] && echo "$w /verif/$d/change_$n.diff $id" >> $list; done; done; done
 total=$(wc -l < $list)
 for k in $(seq 0 $((K-1))); do
   (
@@ -49,7 +49,7 @@ wait
 # merge by wave
 python3 - <<'PY'
 import glob,re
-byw={1:[],2:[],3:[],4:[],5:[]}
+byw={1:[],2:[],3:[],4:[],5:[],6:[]}
 for f in sorted(glob.glob('/verif/.build/par_results_*.txt')):
     w=None
     for line in open(f, errors='replace'):
@@ -57,7 +57,7 @@ for f in sorted(glob.glob('/verif/.build/par_results_*.txt')):
             w=int(line.split()[1]); continue
         if line.startswith('PIPELINE-DONE'): continue
         if w: byw[w].append(line)
-names={1:'mutant_results.txt',2:'mutant_results2.txt',3:'mutant_results3.txt',4:'mutant_results4.txt',5:'mutant_results5.txt'}
+names={1:'mutant_results.txt',2:'mutant_results2.txt',3:'mutant_results3.txt',4:'mutant_results4.txt',5:'mutant_results5.txt',6:'mutant_results6.txt'}
 for w,lines in byw.items():
     open('/verif/.build/'+names[w],'w').write(''.join(lines))
 print({w:sum(1 for l in v if l.startswith('MUTANT')) for w,v in byw.items()})
